@@ -428,6 +428,62 @@ def run_shard(args):
                         out["violations"].append({"kind": "managed-sibling-not-repaired", "detail": {"site": e[0], "event": e, "F": sorted(F), "new": new_src[:2500]}, "witness": wit, "finding": None})
             if len(out["samples"]) < 2 and F == frozenset(CATS):
                 out["samples"].append({"F": sorted(F), "old_args": old_args[:3], "observed": [s["obs"] for s in sites][:3], "new_args": new_args[:3]})
+    # ---- real sessions: snapshots created during collection (module level, parametrize arguments) and compared by a
+    # later test; the fixture, the report and the per-category application of the plugin are in the loop
+    from .. import session
+
+    REAL = [(["--inline-snapshot=fix"], None), (["--inline-snapshot=create,fix,trim,update"], None), (["--inline-snapshot=review"], b"y\ny\ny\ny\n"), (["--inline-snapshot=update"], None), (["--inline-snapshot=fix,update"], None)]
+    nreal = {"quick": 1 if args.shard < len(REAL) else 0, "thorough": 5}[tier]
+    for c in range(nreal):
+        rng = random.Random(f"{args.seed}/{PROP}/session/{args.shard}/{c}")
+        fargs, stdin = REAL[(args.shard + c) % len(REAL)]
+        n, n2, w1, r1, w2, r2, w3, r3 = rng.sample(range(10, 99), 8)
+        src = (
+            "import pytest\nfrom inline_snapshot import snapshot, Is\nfrom vp import *\n\n"
+            f"HOST = 'h{n}'\nN = {n}\n"
+            f"EXPECTED = snapshot(DC(a=Is(HOST), b={w1}, c=[f\"p{{N}}q\", snapshot({n2})]))\n"
+            f"ROWS = snapshot([Is(N), {w2}, AT(a=Is(HOST), b=1+1)])\n"
+            f"PARAMS = [(1, snapshot(DC(a=Is(1), b={w3}))), (2, snapshot(DC(a=Is(2), b={w3})))]\n\n\n"
+            "def test_first():\n    assert True\n\n\n"
+            f"def test_second():\n    assert DC(a=HOST, b={r1}, c=['p%dq' % N, {n2}]) == EXPECTED\n\n\n"
+            f"def test_third():\n    assert [N, {r2}, AT(a=HOST, b=2)] == ROWS\n\n\n"
+            f"@pytest.mark.parametrize('n,expected', PARAMS)\ndef test_param(n, expected):\n    assert DC(a=n, b={r3}) == expected\n"
+        )
+        proj = session.Project({"test_a.py": src})
+        try:
+            r = session.run_session(proj, fargs, env={"FORCE_COLOR": "true"} if stdin else None, stdin=stdin)
+            rd = session.run_session(proj, ["--inline-snapshot=disable"])
+        finally:
+            proj.close()
+        C["real_sessions"] = C.get("real_sessions", 0) + 1
+        wit = {"files": {"test_a.py": src}, "args": fargs, "stdin": stdin.decode() if stdin else None}
+        if any(a["kind"] == "sessionfinish_exception" for a in r.audit):
+            out["violations"].append({"kind": "session-end-raised", "detail": {"events": [a for a in r.audit if a["kind"] == "sessionfinish_exception"]}, "witness": wit, "finding": None})
+            continue
+        new_src = r.after.get("test_a.py", b"").decode()
+        try:
+            old_args, _ = program.outer_snapshot_args(src)
+            new_args, _ = program.outer_snapshot_args(new_src)
+        except SyntaxError as e:
+            out["violations"].append({"kind": "unparsable", "detail": {"error": str(e), "new": new_src[:1500]}, "witness": wit, "finding": None})
+            continue
+        if len(old_args) != len(new_args):
+            out["violations"].append({"kind": "site-count-changed", "detail": {"new": new_src[:1500]}, "witness": wit, "finding": None})
+            continue
+        for k, (oa, na) in enumerate(zip(old_args, new_args)):
+            old_segs = collections.Counter(segments(oa))
+            new_segs = collections.Counter(segments(na))
+            out["evaluations"] += sum(old_segs.values())
+            C["unmanaged_checked"] += sum(old_segs.values())
+            C["real_unmanaged_checked"] = C.get("real_unmanaged_checked", 0) + sum(old_segs.values())
+            out["signatures"].add(f"real-session/collection-time-snapshot/{k}/{' '.join(fargs)}")
+            missing = old_segs - new_segs
+            extra = new_segs - old_segs
+            if missing or extra:
+                out["violations"].append({"kind": "unmanaged-expression-not-kept-verbatim(real session)", "detail": {"args": fargs, "old_arg": oa, "new_arg": na, "missing_segments": list(missing.elements()), "unexpected_segments": list(extra.elements())}, "witness": wit, "finding": None})
+        approved_fix = stdin is not None or any("fix" in a for a in fargs)
+        if approved_fix and rd.exit != 0:
+            out["violations"].append({"kind": "managed-sibling-not-repaired(real session)", "detail": {"args": fargs, "outcomes": {t: o for t, o in rd.outcomes.items() if o != "passed"}, "new": new_src[:1500]}, "witness": wit, "finding": None})
     out["signatures"] = sorted(out["signatures"])
     return out
 
